@@ -99,6 +99,107 @@ TABLE = {
     },
 }
 
+TABLE.update({
+    "block_is_deleted": {
+        "fn": "yrs::block::Block::is_deleted",
+        "why": "a block counts as deleted iff it is a GC range or an item whose DELETED flag is set; a Skip placeholder is not deleted "
+               "(apply_delete parks deletions that land on it)",
+        "atoms": [(r"^\$1 is GC$", "GC"), (r"^\$1 is Item$", "IT"), (r"^\$1 is Skip$", "SK"),
+                  (r"^Item::is_deleted\(\$1 as Item\.0(\.0\.pointer)?\)$", "D")],
+        "req": lambda n: n["GC"] or (n["IT"] and n["D"]),
+    },
+    "slice_is_deleted": {
+        "fn": "yrs::slice::BlockSlice::is_deleted",
+        "why": "same as Block::is_deleted on a slice",
+        "atoms": [(r"^\$1 is GC$", "GC"), (r"^\$1 is Item$", "IT"), (r"^\$1 is Skip$", "SK"),
+                  (r"^ItemSlice::is_deleted\(\$1 as Item\.0\)$", "D")],
+        "req": lambda n: n["GC"] or (n["IT"] and n["D"]),
+    },
+    "blockrange_contains": {
+        "fn": "yrs::block::BlockRange::contains",
+        "why": "a range contains an id iff same client and id.clock in [clock, clock + len)",
+        "atoms": [(r"^PartialEq(>)?::eq\(\$1\.client, \$2\.client\)$", "C"),
+                  (r"^\(\$2\.clock Ge \$1\.clock\)$", "GE"),
+                  (r"^\(\$2\.clock Lt \(\$1\.clock Add(WithOverflow)? \$1\.len\)(\.0)?\)$", "LT")],
+        "req": lambda n: n["C"] and n["GE"] and n["LT"],
+    },
+    "flags_check": {
+        "fn": "yrs::block::ItemFlags::check",
+        "why": "a flag is set iff all bits of the mask are set in the flag word",
+        "atoms": [(r"^\(\(\$1\.0 BitAnd \$2\) Eq \$2\)$", "SET"), (r"^\(\(\$1\.0 BitAnd \$2\) Ne 0\)$", "SET"),
+                  (r"^\(\(\$1\.0 BitAnd \$2\) Ne \$2\)$", "!SET")],
+        "req": lambda n: n["SET"],
+    },
+    "branch_is_deleted": {
+        "fn": "yrs::branch::Branch::is_deleted",
+        "why": "a nested type is deleted iff it has an owning item and that item is deleted (root types never are)",
+        "atoms": [(r"^\$1\.item is Some$", "IT"), (r"^Item::is_deleted\(\$1\.item\)$", "D")],
+        "req": lambda n: n["IT"] and n["D"],
+    },
+    "map_contains_key": {
+        "fn": "yrs::types::map::Map::contains_key",
+        "why": "a key is present iff the map has an entry for it and that entry is live",
+        "atoms": [(r"^HashMap::get\(AsRef::as_ref\(\$1\)\.map, \$3\) is Some$", "E"),
+                  (r"^Item::is_deleted\(HashMap::get\(AsRef::as_ref\((\$1|self)\)\.map, \$3\)\)$", "D")],
+        "req": lambda n: n["E"] and not n["D"],
+    },
+    "seen": {
+        "fn": "yrs::types::text::DiffAssembler::process::seen",
+        "why": "an item is part of the rendered text iff it is live (no snapshot) or visible in the given snapshot",
+        "atoms": [(r"^\$1 is Some$", "SNAP"), (r"^Item::is_deleted\(\$2\)$", "D"), (r"^Snapshot::is_visible\(\$1, \$2\.id\)$", "V")],
+        "req": lambda n: (n["SNAP"] and n["V"]) or ((not n["SNAP"]) and not n["D"]),
+    },
+    "idmap_contains": {
+        "fn": "yrs::ids::IdMapInner::contains",
+        "why": "an id is a member iff the client has an entry whose ranges contain the clock",
+        "atoms": [(r"^BTreeMap::get\(\$1\.0, \$2\.client\) is Some$", "E"),
+                  (r"^IdRanges::contains_clock\(BTreeMap::get\(\$1\.0, \$2\.client\), \$2\.clock\)$", "C")],
+        "req": lambda n: n["E"] and n["C"],
+    },
+    "same_type": {
+        "fn": "yrs::block::Block::same_type",
+        "why": "two blocks are of the same kind iff both GC, both Item or both Skip",
+        "atoms": [(r"^\$1 is GC$", "G1"), (r"^\$2 is GC$", "G2"), (r"^\$1 is Item$", "I1"), (r"^\$2 is Item$", "I2"),
+                  (r"^\$1 is Skip$", "S1"), (r"^\$2 is Skip$", "S2")],
+        "req": lambda n: (n["G1"] and n["G2"]) or (n["I1"] and n["I2"]) or (n["S1"] and n["S2"]),
+        "exclusive": [("G1", "I1", "S1"), ("G2", "I2", "S2")],
+    },
+})
+
+
+FLAG_PREDICATES = {
+    "is_countable": "ITEM_FLAG_COUNTABLE", "is_deleted": "ITEM_FLAG_DELETED", "is_keep": "ITEM_FLAG_KEEP",
+    "is_linked": "ITEM_FLAG_LINKED", "is_marked": "ITEM_FLAG_MARKED",
+}
+
+
+def flag_table(R, ctx, rid):
+    """each ItemFlags::is_X tests the constant of its own name, and the constants are distinct single bits."""
+    Y = ctx.yrs
+    R.rule(rid + ".flags", "R-TABLE flag predicates: ItemFlags::is_countable / is_deleted / is_keep / is_linked / is_marked each call "
+                           "check(self, ITEM_FLAG_<same name>), and those constants are distinct single bits")
+    vals = {}
+    for meth, const in sorted(FLAG_PREDICATES.items()):
+        fn = Y.fns.get("yrs::block::ItemFlags::" + meth)
+        if fn is None:
+            if meth == "is_linked" and "weak" not in Y.features:
+                continue
+            raise AnchorLost("yrs::block::ItemFlags::" + meth)
+        v = FnView(fn)
+        cs = fn.calls_to("yrs::block::ItemFlags::check")
+        ok = False
+        got = None
+        if len(cs) == 1 and len(cs[0].args) == 2:
+            t = simp(v.arg(cs[0], 1))
+            got = t[2] if t[0] == "const" and len(t) > 2 else None
+            ok = got is not None and str(got).endswith(const)
+            if t[0] == "const":
+                vals[const] = t[1]
+        R.ob(rid + ".flags", fn, "mask:" + meth, ok, "%s tests %s" % (meth, got))
+    ds = list(vals.values())
+    R.ob(rid + ".flags", "yrs::block::ItemFlags", "distinct-bits", len(set(ds)) == len(ds) and all(isinstance(x, int) and x > 0 and x & (x - 1) == 0 for x in ds),
+         "flag constants %s are distinct single bits" % vals)
+
 
 def check_pred(R, ctx, rid, name):
     Y = ctx.yrs
